@@ -109,7 +109,7 @@ def mtb : Handler
       | .ok t => treeReply t ds
       | .err _ => "err"
       | .panic => "panic")
-  | "build_env", [c, .nat _threads, ds] => do
+  | "build_env", [c, _threads, ds] => do   -- threads: `<n>` or `t<n>m<hex affinity mask>`
     let ds ← Arg.digests? ds
     let cutoff := cutoffOfEnv (cutoffArg c)
     pure (match fromDigestsFuel Hh filler cutoff (ds.length + 1) ds with
